@@ -3,6 +3,9 @@ import Spine.HeartbeatSeq
 import Spine.HBCounter
 import Spine.HBCounterWeakest
 import Spine.HBRefresh
+import Spine.HBMulti
+import Spine.HBPace
+import Spine.HBStamp
 import Spine.Period
 /-!
 # C16 — heartbeat: monotone, periodic, stoppable
@@ -29,12 +32,26 @@ Status of the clauses of the statement
   subscribers and all schedules of refreshes (`c16_refresh_notified`, `c16_subscriber_sees_increasing`); that the
   registry holds each subscriber once is C08.
 * "after stop / removal has returned, at most one refresh that was already in flight completes and the data then
-  stays unchanged": PROVED for one stream under the promptness assumption (`c16_stop_is_final`; A-inflight/A-time).
+  stays unchanged": PROVED for one stream under the promptness assumption (`c16_stop_is_final`; A-inflight/A-time),
+  and — second deepening round — for ALL streams of a manager in one model (`Spine.HBM`: start → stop → start with the
+  goroutine of the earlier start still in flight or not yet returned; shared counter and data) over every schedule in
+  which a ticker fires only when nothing is pending (`c16_stop_is_final_all_streams`,
+  `c16_data_unchanged_after_the_last_refresh`); both halves of that assumption are necessary
+  (`c16_stop_final_needs_no_refresh_in_flight`, `c16_stop_final_needs_stopped_streams_gone`); under the same assumption
+  the counter clause needs no separate hypothesis (`c16_counter_increasing_all_streams`).
 * `RemoveEntity`: towards the heartbeat it is a `StopHeartbeat` (device_local.go calls it unconditionally, before and
   independently of the membership of the entity in the device's list); the harness maps every `RemoveEntity` — on a
   listed, a removed or a never-listed entity — to the stop events of the model, and the monitor applies the stop
   clause after every such call.
-* "a current timestamp": not modelled (time.Now at the refresh); monitored on the real trace only.
+* "a current timestamp": second deepening round — `Spine.HBS`: the text (wall-clock reading rounded to the second +
+  literal `Z`) denotes the instant of the refresh, in every local zone, iff the reading is the UTC one
+  (`c16_timestamp_current`, `c16_timestamp_local_reading_refuted`, `c16_timestamp_current_iff`); the harness runs the
+  whole test in a process whose local zone is UTC+2, reads the text on the wire with its own reader and compares it
+  with the model's instant and with its own clock.
+* period IN TIME (second round): `Spine.HBP` — with one ticker created before the loop the refreshes begin exactly one
+  period apart however long a refresh takes (≤ a period); with a timer armed per iteration the gap is period + refresh
+  time and exceeds every timeout ≤ 2 s (`c16_refresh_gap_le_timeout`, `c16_timer_per_iteration_refuted`); which of the
+  two the tree under test is, is regenerated (`Props/C16Gen`) and measured (worlds with a slow subscriber).
 -/
 namespace Spine.Props.C16
 open Spine
@@ -194,5 +211,127 @@ example :
     ([HBR.SEv.tick, .stop, .take, .store, .exit].foldl HBR.sstep {}).afterStop = 1 ∧
     ([HBR.SEv.tick, .stop, .take, .store, .tick, .take, .store, .exit].foldl HBR.sstep {}).afterStop = 2 := by
   simp [HBR.Prompt, HBR.sstep]
+
+/-- "After stop, or removal of the entity, has returned, at most one refresh that was already in flight completes" —
+    ALL streams of one manager (`Spine.HBM`): any number of starts and stops, the goroutines of earlier starts still
+    between `<-ticker.C` and the end of `SetData`, or stopped and not yet returned, while later starts and stops
+    happen. For EVERY schedule of starts, stops, ticks, takes, stores and exits in which a ticker fires only when
+    nothing is pending (`promptAll`: no refresh in flight and no stopped stream that has not returned — A-inflight for
+    the whole manager): whenever the heartbeat is stopped, at most one counter has been stored since the stop
+    (`mark` = number stored when the stop returned). -/
+theorem c16_stop_is_final_all_streams (evs : List HBM.Ev) (hp : HBM.promptAll {} evs = true)
+    (hs : (HBM.run evs).cur = none) : (HBM.run evs).stored.length ≤ (HBM.run evs).mark + 1 :=
+  ((HBM.run_inv evs {} HBM.inv_init hp).fin hs).1
+
+/-- non-vacuity: start → a refresh of stream 0 in flight → stop → start → stop → the refresh of stream 0 completes
+    → both goroutines return: exactly one refresh after the (second) stop; and: the old stream's refresh completes
+    while the new stream runs, the new stream refreshes, stop arrives with a tick waiting: one more -/
+example :
+    let a : List HBM.Ev := [.start, .tick 0, .take 0, .stop, .start, .stop, .store 0, .exit 0, .exit 1]
+    let b : List HBM.Ev := [.start, .tick 0, .take 0, .start, .store 0, .exit 0, .tick 1, .take 1, .store 1, .tick 1,
+      .stop, .take 1, .store 1, .exit 1]
+    HBM.promptAll {} a = true ∧ (HBM.run a).cur = none ∧ (HBM.run a).stored = [1] ∧ (HBM.run a).mark = 0 ∧
+    HBM.promptAll {} b = true ∧ (HBM.run b).cur = none ∧ (HBM.run b).stored = [1, 2, 3] ∧ (HBM.run b).mark = 2 := by
+  decide
+
+/-- "... and the data then stays unchanged": once the heartbeat is stopped, however the schedule continues without a
+    start (ticks of old tickers, takes, stores, exits, further stops — under the same assumption), the data has
+    changed at most once since the stop returned, for ever. -/
+theorem c16_data_unchanged_after_the_last_refresh (evs es : List HBM.Ev) (hp : HBM.promptAll {} (evs ++ es) = true)
+    (hs : (HBM.run evs).cur = none) (hn : ∀ e ∈ es, HBM.isStart e = false) :
+    (HBM.run (evs ++ es)).stored.length ≤ (HBM.run evs).mark + 1 := by
+  have h := c16_stop_is_final_all_streams (evs ++ es) hp
+  have hst := HBM.stays_stopped es (HBM.run evs) hs hn
+  simp only [HBM.run, List.foldl_append] at h hst ⊢
+  rw [hst.2] at h
+  exact h hst.1
+
+/-- non-vacuity: after the one refresh that was in flight, old tickers may fire and goroutines return: nothing more -/
+example :
+    let evs : List HBM.Ev := [.start, .tick 0, .take 0, .stop, .start, .stop, .store 0]
+    let es : List HBM.Ev := [.exit 0, .exit 1, .tick 0, .tick 1, .take 0, .take 1, .store 0, .store 1, .stop]
+    HBM.promptAll {} (evs ++ es) = true ∧ (HBM.run evs).cur = none ∧ (∀ e ∈ es, HBM.isStart e = false) ∧
+      (HBM.run (evs ++ es)).stored = [1] := by decide
+
+/-- the assumption cannot be dropped, first half: when the ticker of the new stream fires while the refresh of the old
+    stream is still in flight (it has lasted longer than a period), a stop finds TWO refreshes in flight and both
+    complete after it. (A schedule of the real code: a subscriber's connection that blocks for more than a period.) -/
+theorem c16_stop_final_needs_no_refresh_in_flight :
+    let evs : List HBM.Ev := [.start, .tick 0, .take 0, .stop, .start, .tick 1, .take 1, .stop, .store 0, .store 1]
+    (HBM.run evs).cur = none ∧ (HBM.run evs).stored.length = (HBM.run evs).mark + 2 ∧
+      HBM.promptAll {} evs = false := by decide
+
+/-- second half: a stopped stream that has not yet noticed its closed channel keeps a waiting tick; when the new
+    stream's ticker fires before that, a later stop finds two waiting ticks, and `select` may take both. -/
+theorem c16_stop_final_needs_stopped_streams_gone :
+    let evs : List HBM.Ev := [.start, .tick 0, .stop, .start, .tick 1, .stop, .take 0, .store 0, .take 1, .store 1]
+    (HBM.run evs).cur = none ∧ (HBM.run evs).stored.length = (HBM.run evs).mark + 2 ∧
+      HBM.promptAll {} evs = false := by decide
+
+/-- "carrying a strictly increasing counter", all streams of a manager, under the assumption of the stop clause alone
+    (it implies the `Calm` of `c16_counter_increasing`: at most one refresh is pending in the whole manager). -/
+theorem c16_counter_increasing_all_streams (evs : List HBM.Ev) (hp : HBM.promptAll {} evs = true) :
+    (HBM.run evs).stored.Pairwise (· < ·) :=
+  (HBM.run_inv evs {} HBM.inv_init hp).sorted
+
+/-- non-vacuity: three streams, restarts with a refresh in flight -/
+example :
+    let evs : List HBM.Ev := [.start, .tick 0, .take 0, .start, .store 0, .exit 0, .tick 1, .take 1, .start, .store 1,
+      .exit 1, .tick 2, .take 2, .store 2]
+    HBM.promptAll {} evs = true ∧ (HBM.run evs).stored = [1, 2, 3] ∧ (HBM.run evs).next = 3 := by decide
+
+/-- under the same assumption at most one refresh is pending in the whole manager (in flight, or a tick waiting at a
+    stream that has not returned): the "credit" of all streams but one is zero -/
+theorem c16_at_most_one_refresh_pending (evs : List HBM.Ev) (hp : HBM.promptAll {} evs = true) (i j : Nat)
+    (hij : i ≠ j) :
+    HBM.credit ((HBM.run evs).strm i) = 0 ∨ HBM.credit ((HBM.run evs).strm j) = 0 :=
+  (HBM.run_inv evs {} HBM.inv_init hp).excl i j hij
+
+example : HBM.credit ((HBM.run [.start, .tick 0, .take 0, .stop, .start]).strm 0) = 1 := by decide
+
+/-- "refreshed periodically, with a period not exceeding the announced timeout" IN TIME: the loop is paced by one
+    ticker created before it; whatever time each refresh takes (`r k`, at most a period — a subscriber whose connection
+    is slow to write), two consecutive refreshes begin exactly `period timeout` apart, which is at most the timeout. -/
+theorem c16_refresh_gap_le_timeout (t : Nat) (ht : 0 < t) (r : Nat → Nat) (hr : ∀ k, r k ≤ HB.period t) (k : Nat) :
+    HBP.begins .ticker (HB.period t) r (k + 1) - HBP.begins .ticker (HB.period t) r k = HB.period t ∧
+    HBP.begins .ticker (HB.period t) r (k + 1) - HBP.begins .ticker (HB.period t) r k ≤ t :=
+  HBP.gap_le_timeout t ht r hr k
+
+/-- non-vacuity: timeout 400 ms, every refresh takes 150 ms: the ticker keeps the grid, a timer per iteration drifts -/
+example : HBP.begins .ticker (HB.period 400) (fun _ => 150) 3 = 1600 ∧
+    HBP.begins .perIteration (HB.period 400) (fun _ => 150) 3 = 2050 ∧
+    HBP.begins .ticker (HB.period 2300) (fun _ => 150) 3 = 1200 := by decide
+
+/-- REFUTED for a loop paced by a timer armed anew in every iteration (`case <-time.After(d)`): for every timeout up
+    to 2 s the gap between two refreshes exceeds the announced timeout as soon as a refresh takes any time. -/
+theorem c16_timer_per_iteration_refuted (t : Nat) (ht : t ≤ 2000) (r : Nat → Nat) (k : Nat) (hk : 0 < r k) :
+    t < HBP.begins .perIteration (HB.period t) r (k + 1) - HBP.begins .perIteration (HB.period t) r k :=
+  HBP.perIteration_exceeds t ht r k hk
+
+example : HBP.begins .perIteration (HB.period 400) (fun _ => 150) 1 - HBP.begins .perIteration (HB.period 400) (fun _ => 150) 0 = 550 := by
+  decide
+
+/-- "carrying … a current timestamp": the text of a refresh made at instant `now` (ms since the epoch), read as the
+    UTC text it claims to be, denotes `now` up to the resolution of the text — in every local zone of the process. -/
+theorem c16_timestamp_current (now zone : Int) :
+    HBS.denoted {} now zone - now ≤ 500 ∧ now - HBS.denoted {} now zone ≤ 500 :=
+  HBS.current now zone
+
+example : HBS.denoted {} 1790609334766 7200 = 1790609335000 := by decide
+
+/-- REFUTED for a refresh that formats the LOCAL wall-clock reading with the literal `Z`: in a zone two hours east of
+    UTC the text denotes an instant two hours ahead. -/
+theorem c16_timestamp_local_reading_refuted (now : Int) :
+    HBS.denoted { utc := false } now 7200 = HBS.denoted {} now 7200 + 7200000 :=
+  HBS.local_reading_off now 7200
+
+example : HBS.denoted { utc := false } 1790609334766 7200 = 1790616535000 := by decide
+
+/-- the timestamp is current in a zone at least a quarter of an hour off UTC ⇔ the UTC reading is used -/
+theorem c16_timestamp_current_iff (c : HBS.Cfg) (now zone : Int) (hz : 900 ≤ zone ∨ zone ≤ -900) :
+    (HBS.denoted c now zone - now ≤ 500 ∧ now - HBS.denoted c now zone ≤ 500) ↔ c.utc = true :=
+  HBS.current_iff c now zone hz
+
+example : (900 : Int) ≤ 7200 ∨ (7200 : Int) ≤ -900 := by decide
 
 end Spine.Props.C16
